@@ -115,13 +115,48 @@ class QsModel:
         if self.pending_immediate is not None:
             conn, j = self.pending_immediate
             self.pending_immediate = None
+            if j.state == "d":
+                # the candidate was overdue and got its timeout while the pull looked at it;
+                # is anything else eligible for this (now blocked) puller?
+                rest = self._eligible(self.pulls.get(conn) or []) if conn in self.pulls else []
+                rest = [x for x in rest if x not in self.inflight_possible]
+                if not rest:
+                    return
+                j = min(rest, key=lambda x: x.key)
             cls = "I-drain" if self.draining else "R-order"
             self._fail(cls, f"pull by {conn} not answered although job {j.tag()} "
                        f"(channel {j.channel}) is queued, unfinished and held by nobody",
                        conn=conn, job=j.tag())
 
     server_started_at = None
+    max_now = 0.0
     OVERDUE_GRACE = 60.0
+
+    def _reconcile_timeouts(self):
+        """WHEN an overdue job is marked as timed out is not fixed by the properties: at the
+        1 Hz sweep (today), or as soon as some request notices that the deadline has passed.
+        A job whose deadline has passed and that the server already shows as timed out is
+        therefore accepted as timed out from now on.  (Not later than the next sweep tick it
+        MUST be - on_tick enforces that - and never before the deadline.)"""
+        if self.sim is None or not self.whitebox:
+            return
+        now = self.sim.clock.time()
+        # the server may have looked at its clock at any of its steps so far; the wall clock
+        # can step back afterwards
+        self.max_now = max(self.max_now, now)
+        over = [j for j in self.jobs.values() if j.state != "d" and j.deadline <= self.max_now]
+        if not over:
+            return
+        try:
+            table = self.sim.workq.id2job
+        except AttributeError:
+            return
+        for j in over:
+            srv = table.get(j.jobid)
+            if srv is not None and getattr(srv, "serial", None) == j.serial and getattr(srv, "done", False) \
+                    and getattr(srv, "error", None) == "timeout":
+                self.probe("timeout-applied-outside-the-sweep")
+                self._finish(j, now, error="timeout")
 
     def _reconcile_drops(self):
         """A finished job marked by qdrop leaves the table at the moment a client's wait on it
@@ -146,6 +181,7 @@ class QsModel:
                     self.probe("dropped-after-wait")
 
     def _event(self):
+        self._reconcile_timeouts()
         self._check_pending_immediate()
         self._reconcile_drops()
         self.event_no += 1
@@ -343,6 +379,7 @@ class QsModel:
         self.expect[conn] = (self.event_no, "stats", None)
 
     def on_resp(self, conn, rpc, args, payload, now):
+        self._reconcile_timeouts()
         self._observe_ttl()
         self._reconcile_drops()
         exp = self.expect.pop(conn, None)
@@ -374,6 +411,14 @@ class QsModel:
         elif kind == "wait":
             js = exp[2]
             self.waits.pop(conn, None)
+            got_ = [res] if rpc == "qadd" else (res if isinstance(res, list) else [])
+            for j, g in zip(js, got_):
+                # an overdue job may have got its timeout while some request looked at the
+                # queue (see _reconcile_timeouts); the answer itself is the evidence then
+                if j.state != "d" and j.deadline <= self.max_now and isinstance(g, dict) \
+                        and g.get("done") and g.get("error") == "timeout":
+                    self.probe("timeout-applied-outside-the-sweep")
+                    self._finish(j, now, error="timeout")
             for j in js:
                 if j.state != "d":
                     self._fail("R-wait", f"waiter {conn} released while job {j.tag()} is not finished", job=j.tag())
@@ -394,6 +439,10 @@ class QsModel:
             self.pending_immediate = None
         else:
             expected = None
+        if expected is not None and expected.state == "d":
+            # timed out while the pull looked at it: the next best candidate is due
+            rest = [x for x in self._eligible(channels or []) if x not in self.inflight_possible]
+            expected = min(rest, key=lambda x: x.key) if rest else None
         if not isinstance(res, dict):
             self._fail("I-unknown", f"qpull returned {res!r}")
         jid, serial = res.get("jobid"), res.get("serial")
@@ -560,6 +609,7 @@ class QsModel:
 
     # ---- quiescent-point invariants -------------------------------------------
     def at_quiescence(self):
+        self._reconcile_timeouts()
         self._check_pending_immediate()
         self._reconcile_drops()
         # no lost wake-up: a blocked puller and an eligible unheld job cannot coexist
